@@ -1015,75 +1015,107 @@ def _rat_fun_equal(a, b, syms) -> bool:
     return worst <= float(REL) * max(scale, 1e-300) or worst == 0.0
 
 
-def check_symbolic(res: Result, cases: list[dict]) -> None:
+def symbolic_verdict(case: dict) -> tuple[str, list[tuple[str, str]]]:
     """Evaluate the real objects on object arrays of sympy symbols: value and Jacobian are compared
-    with the oracle's expressions as rational functions, i.e. for every real input at once."""
+    with the oracle's expressions as rational functions, i.e. for every real input at once.
+    Pure function of the case (run in worker processes): ("ok" | "skipped" | "large" | "bad", clauses)."""
     import sympy as sp
 
     from harness.c10_tree import SQ
     from harness.c10_tree import Oracle
 
-    for case in cases:
-        tree, n = case["tree"], case["n"]
-        res.evaluations += 1
-        res.count("stream:symbolic")
-        syms = sp.symbols(f"x0:{n}", real=True)
-        x = np.array(syms, dtype=object)
-        try:
-            exp = Oracle().ev(tree, [SQ(t) for t in syms])
-        except (Undefined, IllShaped):
-            res.count("symbolic-skipped")
-            continue
-        exp_v = [d.v.v for d in exp]
-        if sum(sp.count_ops(e) for e in exp_v) > 400 or tree_ops(tree).count("div") > 2:
-            res.count("symbolic-skipped-large")
-            continue
-        bad: list[tuple[str, str]] = []
-        try:
-            impl = Impl(tree, n)
-            v = np.atleast_1d(impl.root.evaluate(x)).ravel()
-            jac = np.atleast_2d(impl.root.jac(x))
-        except Exception as e:  # noqa: BLE001
-            bad.append(("symbolic-raises", f"evaluation on symbols raised {common.exc_class(e)}: {repr(e)[:150]}"))
-            v, jac = None, None
-        if v is not None:
-            if len(v) != len(exp_v) or jac.shape != (len(exp_v), n):
-                bad.append(("symbolic-shape", f"value/Jacobian shapes {len(v)}, {jac.shape} for a function R^{n} -> R^{len(exp_v)}"))
-            else:
-                for i, (g, e) in enumerate(zip(v, exp_v)):
-                    if not _rat_fun_equal(g, e, syms):
-                        bad.append(("symbolic-value", f"component {i}: the code evaluates {sp.simplify(g)} for symbolic inputs, the combination is {sp.simplify(e)}"))
-                        break
-                done = False
-                for i, e in enumerate(exp_v):
-                    for j, sj in enumerate(syms):
-                        if not _rat_fun_equal(jac[i, j], sp.diff(e, sj), syms):
-                            bad.append(("symbolic-jac", f"jac[{i}][{j}] is {sp.simplify(jac[i, j])} for symbolic inputs, the derivative is {sp.simplify(sp.diff(e, sj))}"))
-                            done = True
-                            break
-                    if done:
-                        break
-        if tree_depth(tree) >= 2:
-            res.nontrivial("sym:" + case_key(case))
-        if not bad:
-            res.count("symbolic-identities-proved")
-            continue
-        # a symbolic difference has numeric witnesses: look for one and shrink it (standard replay)
-        rng = common.make_rng(1, "c10-sym:" + case_key(case)[:200])
-        found = False
-        for _ in range(8):
-            c = dict(case, points=[gen_point(rng, n)])
-            nb = fails(c, None)
-            if nb:
-                clause, msg = nb[0]
-                small, sclause = shrink(c, clause)
-                res.violate("oracle", f"{sclause}:{root_sig(small['tree'], small['n'])}", msg + " [found by the symbolic stream]",
-                            {"case": small, "clause": sclause})
-                found = True
+    common.quiet_gemseo()
+    tree, n = case["tree"], case["n"]
+    syms = sp.symbols(f"x0:{n}", real=True)
+    x = np.array(syms, dtype=object)
+    try:
+        exp = Oracle().ev(tree, [SQ(t) for t in syms])
+    except (Undefined, IllShaped):
+        return "skipped", []
+    exp_v = [d.v.v for d in exp]
+    if sum(sp.count_ops(e) for e in exp_v) > 400 or tree_ops(tree).count("div") > 2:
+        return "large", []
+    bad: list[tuple[str, str]] = []
+    try:
+        impl = Impl(tree, n)
+        v = np.atleast_1d(impl.root.evaluate(x)).ravel()
+        jac = np.atleast_2d(impl.root.jac(x))
+    except Exception as e:  # noqa: BLE001
+        return "bad", [("symbolic-raises", f"evaluation on symbols raised {common.exc_class(e)}: {repr(e)[:150]}")]
+    if len(v) != len(exp_v) or jac.shape != (len(exp_v), n):
+        return "bad", [("symbolic-shape", f"value/Jacobian shapes {len(v)}, {jac.shape} for a function R^{n} -> R^{len(exp_v)}")]
+    for i, (g, e) in enumerate(zip(v, exp_v)):
+        if not _rat_fun_equal(g, e, syms):
+            bad.append(("symbolic-value", f"component {i}: the code evaluates {sp.simplify(g)} for symbolic inputs, the combination is {sp.simplify(e)}"))
+            break
+    done = False
+    for i, e in enumerate(exp_v):
+        for j, sj in enumerate(syms):
+            if not _rat_fun_equal(jac[i, j], sp.diff(e, sj), syms):
+                bad.append(("symbolic-jac", f"jac[{i}][{j}] is {sp.simplify(jac[i, j])} for symbolic inputs, the derivative is {sp.simplify(sp.diff(e, sj))}"))
+                done = True
                 break
-        if not found:
-            clause, msg = bad[0]
-            res.violate("oracle", f"{clause}:{root_sig(tree, n)}", msg, {"case": dict(case, symbolic=True), "clause": clause})
+        if done:
+            break
+    return ("bad", bad) if bad else ("ok", [])
+
+
+def check_symbolic(res: Result, cases: list[dict], deadline: float | None = None, workers: int = 8, per_case_s: float = 40.0) -> None:
+    """Symbolic stream over a pool of worker processes (sympy can be slow on some rational functions:
+    a case that does not finish in `per_case_s` is counted as `symbolic-timeout`, never as a verdict)."""
+    import multiprocessing as mp
+    import time as _time
+
+    if not cases:
+        return
+    ctx = mp.get_context("fork")
+    pool = ctx.Pool(processes=min(workers, len(cases)), maxtasksperchild=25)
+    try:
+        pending = [(case, pool.apply_async(symbolic_verdict, (case,))) for case in cases]
+        for case, fut in pending:
+            tree, n = case["tree"], case["n"]
+            res.evaluations += 1
+            res.count("stream:symbolic")
+            try:
+                budget = per_case_s if deadline is None else max(1.0, min(per_case_s, deadline - _time.time()))
+                status, bad = fut.get(timeout=budget)
+            except mp.TimeoutError:
+                res.count("symbolic-timeout")
+                continue
+            except Exception as e:  # noqa: BLE001
+                res.count("symbolic-worker-error")
+                res.notes.append(f"symbolic worker error: {e!r}"[:200])
+                continue
+            if status == "skipped":
+                res.count("symbolic-skipped")
+                continue
+            if status == "large":
+                res.count("symbolic-skipped-large")
+                continue
+            if tree_depth(tree) >= 2:
+                res.nontrivial("sym:" + case_key(case))
+            if status == "ok":
+                res.count("symbolic-identities-proved")
+                continue
+            # a symbolic difference has numeric witnesses: look for one and shrink it (standard replay)
+            rng = common.make_rng(1, "c10-sym:" + case_key(case)[:200])
+            found = False
+            for _ in range(8):
+                c = dict(case, points=[gen_point(rng, n)])
+                nb = fails(c, None)
+                if nb:
+                    clause, msg = nb[0]
+                    small, sclause = shrink(c, clause)
+                    res.violate("oracle", f"{sclause}:{root_sig(small['tree'], small['n'])}", msg + " [found by the symbolic stream]",
+                                {"case": small, "clause": sclause})
+                    found = True
+                    break
+            if not found:
+                clause, msg = bad[0]
+                res.violate("oracle", f"{clause}:{root_sig(tree, n)}", msg, {"case": dict(case, symbolic=True), "clause": clause})
+    finally:
+        pool.terminate()
+        pool.join()
 
 
 def gen_symbolic_case(rng) -> dict | None:
@@ -1153,11 +1185,9 @@ def run(ctx) -> Result:
         c = gen_symbolic_case(rng)
         if c is not None:
             sym.append(c)
-    for i in range(0, len(sym), 50):
-        if time.time() > ctx.deadline:
-            res.notes.append(f"deadline reached after {i} symbolic cases")
-            break
-        check_symbolic(res, sym[i : i + 50])
+    t_sym = time.time()
+    check_symbolic(res, sym, deadline=ctx.deadline, workers=12 if ctx.thorough else 8)
+    res.extra["symbolic_stream_wall_s"] = round(time.time() - t_sym, 1)
     return res
 
 
